@@ -1,4 +1,4 @@
-import WhatwgUrl.Impl.Canon
+import WhatwgUrl.Impl.Profiles
 /-
   Line protocol of the correspondence check: decoding of case lines, encoding of observations.
   The Go harness (/verif/harness) prints exactly the same observation format from the real code.
@@ -24,10 +24,6 @@ def natOfHex (s : String) : Nat := s.toList.foldl (fun acc c => acc * 16 + hexNi
 
 /-! ### configurations -/
 
-def latin1 : Charmap :=
-  { enc := fun r => if r.toNat < 0x100 then (r.toNat.toUInt8, true) else (0x1A, false)
-    dec := fun x => Char.ofNat x.toNat }
-
 /-- a charmap sent as a table: `t` + replacement byte (2 hex) + for every byte its decoded code point (4 hex) and the byte
     `EncodeRune` returns for that code point (2 hex) -/
 def charmapOfTok (t : String) : Option Charmap :=
@@ -47,21 +43,7 @@ def charmapOfTok (t : String) : Option Charmap :=
            dec := fun x => Char.ofNat ((tbl.getD x.toNat (0xfffd, 0)).1) }
   | _ => none
 
-/-- `strings.Trim(host, ".")` then collapse `\.\.+` to `.` -/
-def collapseDotsAux : Bool → Bytes → Bytes
-  | _, [] => []
-  | prevDot, x :: rest =>
-    if x == 0x2e then (if prevDot then collapseDotsAux true rest else x :: collapseDotsAux true rest)
-    else x :: collapseDotsAux false rest
-
-def collapseDots (s : Bytes) : Bytes := collapseDotsAux false s
-
-def gsbPre (_ : Url) (h : Bytes) : Bytes := collapseDots (trimRightByte 0x2e (trimLeftByte 0x2e h))
-def semanticPre (_ : Url) (h : Bytes) : Bytes :=
-  if h.isEmpty then h
-  else
-    let h' := collapseDots (trimRightByte 0x2e (trimLeftByte 0x2e h))
-    if h'.isEmpty then lit "0.0.0.0" else h'
+-- `latin1`, `gsbPre`, `semanticPre`: WhatwgUrl/Impl/Profiles.lean (the theorems of Props/C18e.lean are about them)
 
 /-- synthetic closures used by the harness -/
 def constHost (_ : Url) (_ : Bytes) : Bytes := lit "example.org"
@@ -115,6 +97,22 @@ def profileOfTok (t : String) : Profile :=
       sortQuery := if so == "1" then .sortKeys else if so == "2" then .sortParameter else .noSort,
       defaultScheme := tokBytes ds }
   | _ => {}
+
+/-- the closure / charmap ids of a profile token (`pre`, `post`, `enc` fields of its cfg token) -/
+def profileIds (t : String) : List String :=
+  match t.splitOn ";" with
+  | [_, _, _, c] => (match c.splitOn "," with | [_, pre, post, enc, _, _, _, _, _, _] => [pre, post, enc] | _ => [])
+  | _ => []
+
+/-- `LPROF`: the token of a predefined profile (printed by the harness from the real Go object) decodes to the Lean value the
+    theorems are stated about — all data fields, and the ids of the closures / the charmap -/
+def profileMatches (name tok : String) : Bool :=
+  match name with
+  | "GoogleSafeBrowsing" => (profileOfTok tok).sameData gsbProfile && profileIds tok == ["1", "0", "0"]
+  | "Semantic" => (profileOfTok tok).sameData semanticProfile && profileIds tok == ["2", "0", "1"]
+  | "WhatWg" => (profileOfTok tok).sameData {} && profileIds tok == ["0", "0", "0"]
+  | "WhatWgSortQuery" => (profileOfTok tok).sameData { sortQuery := .sortKeys } && profileIds tok == ["0", "0", "0"]
+  | _ => false
 
 /-! ### the IDNA oracle as seen by the driver -/
 
